@@ -34,7 +34,9 @@ class Check(EngineCheck):
            # cancellation of our own on top); later builds must be clean
            (0.1, {"dbfail": True, "cancel": True}),
            # directed: cancelled with several deferred tasks outstanding, two or more reported complete back-to-back
-           (0.1, {"drain": True})]
+           (0.1, {"drain": True}),
+           # directed: a scanning build cancelled from inside a callback, then an edit and a build on the same engine
+           (0.1, {"cancelscan": True})]
     budget = (350, 3500)
     assumptions = EngineCheck.assumptions + [
         "termination after cancellation ('never hangs'): a theorem for the transliterated engine (EngineImpl_terminates_async, under the size condition); on the real engine it is additionally watched by the harness watchdog with cancellation delivered at hook points, inside callbacks and from a foreign thread",
